@@ -332,8 +332,17 @@ func cmdCheck(args []string) int {
 		}
 		var scs []scen
 		seen := map[string]bool{}
+		nativePkg, nativeTest := "internal/witness", "TestReplayCovers$"
 		for _, rep := range reports {
-			if !strings.HasSuffix(rep.Harness, ".VerifUpdateStep") {
+			if strings.HasSuffix(rep.Harness, ".VerifBastion") {
+				nativePkg, nativeTest = "omniwitness", "TestReplayBastion$"
+			}
+		}
+		for _, rep := range reports {
+			if !strings.HasSuffix(rep.Harness, ".VerifUpdateStep") && !strings.HasSuffix(rep.Harness, ".VerifBastion") {
+				continue
+			}
+			if nativePkg == "omniwitness" && !strings.HasSuffix(rep.Harness, ".VerifBastion") {
 				continue
 			}
 			var ids []string
@@ -363,7 +372,7 @@ func cmdCheck(args []string) int {
 			jf := filepath.Join(root, ".work", fmt.Sprintf("replay-%s-%d.json", id, os.Getpid()))
 			b, _ := json.MarshalIndent(scs, "", " ")
 			os.WriteFile(jf, b, 0o644)
-			cmd := exec.Command(filepath.Join(root, "native", "run.sh"), "internal/witness", "-v", "-run", "TestReplayCovers$")
+			cmd := exec.Command(filepath.Join(root, "native", "run.sh"), nativePkg, "-v", "-run", nativeTest)
 			cmd.Env = append(os.Environ(), "WSYM_REPLAY_JSON="+jf)
 			out, err := cmd.CombinedOutput()
 			txt := string(out)
